@@ -139,12 +139,12 @@ HARNESSES = [
       fns=['yaml::chunker::ChunkReader::read'], timeout=600, min_covers=2),
     H('U-CHK', 'chunker', 'chunk_reader_read_step_big', 'bounded-size', ['C03', 'C05', 'C17'], tier='thorough', bounds='stream <= 8 B, caller buffer <= 5 B; any state',
       fns=['yaml::chunker::ChunkReader::read'], timeout=1200, min_covers=2),
-    H('U-CHK', 'chunker', 'chunk_reader_take_to_offset', 'bounded-size', ['C03', 'C05', 'C04'], bounds='stream <= 4 B; any state; any offset allowed by the libyaml-mark assumption',
-      fns=['yaml::chunker::ChunkReader::take_to_offset'], timeout=900, min_covers=1, assumes=['libyaml marks: start <= offset <= bytes delivered']),
-    H('U-CHK', 'chunker', 'chunk_reader_trim_to_offset', 'bounded-size', ['C03', 'C05', 'C04'], bounds='stream <= 4 B; any state',
-      fns=['yaml::chunker::ChunkReader::trim_to_offset'], timeout=900, min_covers=1, assumes=['libyaml marks: start <= offset <= bytes delivered']),
-    H('U-CHK', 'chunker', 'chunk_reader_cuts_partition_stream', 'bounded-size', ['C03'], tier='thorough', bounds='stream <= 4 B; two documents',
-      fns=['yaml::chunker::ChunkReader::take_to_offset', 'yaml::chunker::ChunkReader::trim_to_offset'], timeout=1800, min_covers=1,
+    H('U-CHK', 'chunker', 'chunk_reader_take_to_offset', 'bounded-size', ['C03', 'C05', 'C04'], bounds='every size combination start <= o <= delivered <= 4 B (enumerated), contents symbolic',
+      fns=['yaml::chunker::ChunkReader::take_to_offset'], timeout=900, assumes=['libyaml marks: start <= offset <= bytes delivered']),
+    H('U-CHK', 'chunker', 'chunk_reader_trim_to_offset', 'bounded-size', ['C03', 'C05', 'C04'], bounds='every size combination start <= o <= delivered <= 4 B (enumerated), contents symbolic',
+      fns=['yaml::chunker::ChunkReader::trim_to_offset'], timeout=900, assumes=['libyaml marks: start <= offset <= bytes delivered']),
+    H('U-CHK', 'chunker', 'chunk_reader_cuts_partition_stream', 'bounded-size', ['C03'], bounds='every size combination start <= a <= b <= c <= 3 B (enumerated), contents symbolic',
+      fns=['yaml::chunker::ChunkReader::take_to_offset', 'yaml::chunker::ChunkReader::trim_to_offset'], timeout=1800,
       assumes=['libyaml marks monotone']),
     H('U-CHK', 'chunker', 'chunk_reader_overreporting_reader_panics_cleanly', 'bounded-size', ['C17'], bounds='stream <= 4 B, caller buffer <= 3 B; reader over-reports by 1..3',
       fns=['yaml::chunker::ChunkReader::read'], timeout=600, expected_failures=[r'slice/index\.rs', r'slice_index'],
@@ -157,6 +157,8 @@ HARNESSES = [
       fns=['transcode::stream::State::capture_error', 'transcode::stream::State::capture_child_error', 'transcode::stream::State::into_error', 'transcode::stream::State::error_source'], timeout=300),
     H('U-TX', 'stream', 'tx_serialize_with_seed_contract', 'complete', ['C11', 'C12', 'C04'], bounds='4 serializer-step behaviours x leaf deserializer ok/fails x leaf serializer ok/fails',
       fns=['transcode::stream::Forwarder::serialize_with_seed', 'transcode::stream::Forwarder::serialize'], timeout=300, min_covers=5),
+    H('U-TX', 'stream', 'tx_forwarder_serialize_contract', 'bounded', ['C11', 'C12', 'C04'], bounds='one nested mock collection (<= 2 elements / 1 entry) below the forwarder; failure possible at every step',
+      fns=['transcode::stream::Forwarder::serialize', 'transcode::stream::Visitor::visit_seq', 'transcode::stream::Visitor::visit_map'], timeout=900, min_covers=3),
     H('U-TX', 'stream', 'tx_error_attribution_depth1', 'bounded', ['C11', 'C12', 'C01', 'C06', 'C04'], bounds='mock nesting depth 1, <= 2 elements / 1 map entry, failure possible at every step of either side',
       fns=['transcode::stream::transcode', 'transcode::stream::Visitor::visit_seq', 'transcode::stream::Visitor::visit_map', 'transcode::stream::SeqSeed/KeySeed/ValueSeed::deserialize',
            'transcode::stream::Forwarder::serialize', 'transcode::stream::Forwarder::serialize_with_seed'], timeout=900, min_covers=3,
@@ -165,10 +167,6 @@ HARNESSES = [
       fns=['transcode::stream::transcode'], timeout=3600, min_covers=3),
     H('U-VAL', 'value', 'value_scalar_types_and_bits_kept', 'complete', ['C01', 'C06'], bounds='18 visit forms (all scalar widths, char, unit, three string forms) x every 128-bit payload',
       fns=['transcode::value::Value::deserialize', 'transcode::value::Value::serialize'], timeout=900, min_covers=4),
-    H('U-VAL', 'value', 'value_event_fidelity_depth1', 'bounded', ['C01', 'C06'], bounds='mock nesting depth 1, <= 2 elements / 1 map entry',
-      fns=['transcode::value::Value::deserialize', 'transcode::value::Value::serialize'], timeout=900, min_covers=2),
-    H('U-VAL', 'value', 'value_event_fidelity_depth2', 'bounded', ['C01'], tier='thorough', bounds='mock nesting depth 2',
-      fns=['transcode::value::Value::deserialize', 'transcode::value::Value::serialize'], timeout=3600, min_covers=2),
     # ---- U-YML / U-TOML / U-JSN / U-LIB / U-EXT ----
     H('U-YML', 'yaml', 'yaml_slice_fast_path_requires_utf8', 'complete', ['C07', 'C02'], bounds='every slice of length 0..=4 (the detector reads 4 bytes)',
       fns=['yaml::transcode'], timeout=600, min_covers=2,
@@ -207,9 +205,6 @@ HARNESSES = [
     H('U-JSN', 'json', 'json_input_matches_mapping_io_error', 'complete', ['C09', 'C12'], bounds='every slice <= 3 B; source fails during the trial',
       fns=['json::input_matches'], timeout=900, min_covers=1,
       assumes=['serde_json trial stubbed by its assumed contract; serde_json::Error::is_io stubbed by the ghost category of the error the stub produced']),
-    H('U-JSN', 'json', 'json_input_matches_mapping_syntax_error', 'complete', ['C09', 'C12'], bounds='every slice <= 3 B; trial meets a syntax / data / EOF error',
-      fns=['json::input_matches'], timeout=900, min_covers=1,
-      assumes=['serde_json trial stubbed by its assumed contract; serde_json::Error::is_io stubbed by the ghost category of the error the stub produced']),
     H('U-LIB', 'lib', 'translator_flush_forwards_to_writer', 'complete', ['C12'], bounds='4 output formats x 4 writer flush results',
       fns=['Translator::flush', 'Dispatcher::flush', 'json::Output::flush', 'msgpack::Output::flush', 'toml::Output::flush', 'yaml::Output::flush'], timeout=300, min_covers=2),
     H('U-EXT', 'main', 'extension_table', 'complete', ['C14'], bounds='every extension byte string of length 0..=7, present or absent',
@@ -228,7 +223,8 @@ PROPERTIES = {
         assumptions=['every parser and writer crate is faithful (serde_json, serde_yaml, toml, rmp-serde: assumed)',
                      'JSON float parsing without serde_json float_roundtrip is known NOT to be exact (one-ULP loss on ~10% of 17-digit floats): xt contains no float-parsing code, so no contract on xt code can express it',
                      'TOML table reordering and preserve_order are a dependency feature'],
-        not_covered=['parsers and writers', 'JSON float ULP loss (known, outside this technique)', 'nesting deeper than the mock bound (argued by the per-function contracts, checked to depth 2 in the thorough tier)']),
+        not_covered=['parsers and writers', 'JSON float ULP loss (known, outside this technique)', 'nesting deeper than the mock bound (argued by the per-function contracts, checked to depth 2 in the thorough tier)',
+                     'composite fidelity of transcode::Value (sequence / map order through Vec): Value::deserialize of a one-element sequence is out of CBMC\'s reach; only its scalar contract is proved']),
     'C02': dict(
         explanation='Schedule transparency of every reader xt owns (CaptureReader, FusedReader chain, Utf16/Utf32 decoders, Utf8Encoder, ChunkReader): the bytes '
                     'handed to the consumer are a function of the bytes delivered by the source for every pattern of short reads (step-inductive contracts). '
